@@ -9,6 +9,7 @@ import (
 	"fmt"
 	"math"
 	"os"
+	"runtime"
 	"strconv"
 )
 
@@ -134,6 +135,8 @@ func Note(s string)               {}
 func Steps() int64                { return 0 }
 func Goroutines() int             { return 0 }
 func AtomicYield(on bool)         {}
+func Handoff()                    { runtime.Gosched() }
+func Yield()                      { runtime.Gosched() }
 func SetHook(name string, f func()) {}
 func IteInt64(c bool, a, b int64) int64 {
 	if c {
